@@ -32,6 +32,27 @@ def set_adts(adt_table):
     _ADTS = dict(adt_table)
 
 
+PRIM_CASTS = ("Int", "Bytes", "Bool", "Void")
+
+
+def is_cast(e):
+    return e.annot is not None and e.rhs.ty[0] == "Data" and e.annot[0] != "Data"
+
+
+def forcing_cast(e):
+    """a checked down-cast that is certainly performed where it stands (FINDINGS F10: casts to a primitive type
+    are only performed when the bound variable is needed, except under verbose compiler traces)"""
+    return is_cast(e) and e.annot[0] not in PRIM_CASTS
+
+
+def lazy_cast_hazard(e):
+    """`expect v: Int = d` (or ByteArray / Bool / Void) whose variables are used, but nowhere strictly"""
+    if not (is_cast(e) and e.annot[0] in PRIM_CASTS):
+        return False
+    used = [n for n, _t in pattern_vars(e.pat) if occurs(n, e.body)]
+    return bool(used) and not binding_forced(e.pat, e.body)
+
+
 def binding_forced(pat, body):
     """Does matching `pat` and then evaluating `body` certainly force the matched value?
     (a refutable pattern has to inspect it; an irrefutable one only if a bound variable is used strictly)"""
@@ -189,8 +210,7 @@ def strict_occ(name, e):
             return False
         return strict_occ(name, e.body)
     if k == "Expect":
-        cast = e.annot is not None and e.rhs.ty[0] == "Data" and e.annot[0] != "Data"
-        if strict_occ(name, e.rhs) and (cast or binding_forced(e.pat, e.body)):
+        if strict_occ(name, e.rhs) and (forcing_cast(e) or binding_forced(e.pat, e.body)):
             return True
         if any(name == n for n, _t in pattern_vars(e.pat)):
             return False
@@ -221,8 +241,9 @@ def let_invariants_ok(e, allow_hazard=False):
         alts, body0 = e.clauses[0]
         if not binding_forced(alts[0], body0):
             return False
-    if e.K == "Expect" and not allow_hazard and may_abort(e.rhs):
-        cast = e.annot is not None and e.rhs.ty[0] == "Data" and e.annot[0] != "Data"
-        if not cast and not binding_forced(e.pat, e.body):
+    if e.K == "Expect" and not allow_hazard:
+        if lazy_cast_hazard(e):
+            return False
+        if may_abort(e.rhs) and not forcing_cast(e) and not binding_forced(e.pat, e.body):
             return False
     return all(let_invariants_ok(c, allow_hazard) for c in children(e))
